@@ -40,7 +40,6 @@ Proof.
   change (N.of_nat 8) with 8 in E3, E4. rewrite E3, E4.
   replace (w <? 8) with false by lia. replace (max_width <? w) with false by lia.
   replace (two63 <=? blen data) with false by (unfold two63, max_alloc in *; lia).
-  replace (max_alloc <? blen data) with false by lia.
   replace ((0 <? blen data) && (blen (data ++ rest) =? 0)) with false by (rewrite blen_app; lia).
   replace (blen (data ++ rest) <? blen data) with false by (rewrite blen_app; lia).
   rewrite take_app, drop_app. reflexivity.
@@ -196,11 +195,10 @@ Proof.
   destruct (blen s <? 4); [discriminate|]. destruct (blen (drop 4 s) <? 8); [discriminate|].
   destruct (le_dec (take 4 s) <? 8) eqn:E1; [discriminate|].
   destruct (max_width <? le_dec (take 4 s)) eqn:E2; [discriminate|].
-  destruct (two63 <=? le_dec (take 8 (drop 4 s))); [discriminate|].
-  destruct (max_alloc <? le_dec (take 8 (drop 4 s))) eqn:E3; [discriminate|].
+  destruct (two63 <=? le_dec (take 8 (drop 4 s))) eqn:E3; [discriminate|].
   destruct ((0 <? le_dec (take 8 (drop 4 s))) && (blen (drop 8 (drop 4 s)) =? 0)); [discriminate|].
   destruct (blen (drop 8 (drop 4 s)) <? le_dec (take 8 (drop 4 s))) eqn:E4; [discriminate|].
-  inversion H; subst. unfold swi_wf. cbn [fst snd]. rewrite blen_take. lia.
+  inversion H; subst. unfold swi_wf. cbn [fst snd]. rewrite blen_take. unfold max_alloc, two63 in *. lia.
 Qed.
 
 Lemma kv_put_length {A} k (v : A) m : (length (kv_put k v m) <= S (length m))%nat.
